@@ -288,6 +288,21 @@ fn pinned_programs() -> Vec<(String, String)> {
     {
         v.push((format!("comment-between:{i}"), t.to_string()));
     }
+    // empty lines between the directive and the statement it precedes
+    for (i, t) in [
+        "-- stylua: ignore\n\nlocal   m   =  { 1,0,\n   0,1 }\nlocal   after=1\n",
+        "local   before=1\n-- stylua: ignore\n\n\nlocal   m   =  { 1,0 }\nlocal   after=1\n",
+        "do\n    -- stylua: ignore\n\n    call  (  1,2  ) ;\n    other  ( )\nend\n",
+        "--[[ stylua: ignore ]]\n\nx   =   1\n",
+        "-- stylua: ignore\n\n-- c\n\nx   =   1\ny   =  2\n",
+        "function f()\n    local   a=1\n    -- stylua: ignore\n\n    return   1,2;\nend\n",
+        "-- stylua: ignore\n\nreturn   1,2;\n",
+    ]
+    .iter()
+    .enumerate()
+    {
+        v.push((format!("blank-after-directive:{i}"), t.to_string()));
+    }
     // the directive as one line of a longer block comment; stray `ignore end` before a complete region
     for (i, t) in [
         "--[[\n  laid out by hand\n  stylua: ignore\n]]\nlocal   m   =  { 1,0,\n   0,1 }\nlocal   after=1\n",
@@ -303,6 +318,8 @@ fn pinned_programs() -> Vec<(String, String)> {
     // table fields
     for (i, t) in [
         "local t = {\n    -- stylua: ignore\n    a   =   1,\n    b   =  2,\n}\n",
+        "local t = {\n    a = 1,\n    -- stylua: ignore\n\n    b   =   2,\n    c=3,\n}\n",
+        "local t = {\n    -- stylua: ignore\n\n\n    [ 'k' ]   =  { 1,2 },\n}\n",
         "local t = {\n    a   =   1,\n    -- stylua: ignore\n    [ 'k' ]   =  { 1,2 },\n    c=3,\n}\n",
         "local t = { x   = 1,\n    -- stylua: ignore\n    y   =   2 }\n",
         "call({\n    -- stylua: ignore\n    f   =   function( a )   return a   end,\n    g = 1,\n})\n",
@@ -333,7 +350,7 @@ fn check_table_field(ctx: &mut Ctx, id: &str, src: &str, c: &Cfg) {
         if (t == "-- stylua: ignore" || t == "stylua: ignore") && i + 1 < lines.len() {
             let mut j = i + 1;
             // skip further comment lines (and the closing line of a block comment that holds the directive)
-            while j < lines.len() && (lines[j].trim().starts_with("--") || lines[j].trim() == "]]") {
+            while j < lines.len() && (lines[j].trim().starts_with("--") || lines[j].trim() == "]]" || lines[j].trim().is_empty()) {
                 j += 1;
             }
             if j >= lines.len() {
@@ -496,7 +513,13 @@ pub fn run_item(w: &W, ctx: &mut Ctx, mut i: usize) {
             }
             ins.push((ls, 1, format!("{indent}-- stylua: ignore start{nl}")));
         } else {
-            ins.push((ls, 1, format!("{indent}-- stylua: ignore{nl}")));
+            // sometimes with empty lines between the directive and the statement
+            let gap = match rng.below(8) {
+                0 => nl.to_string(),
+                1 => format!("{nl}{nl}"),
+                _ => String::new(),
+            };
+            ins.push((ls, 1, format!("{indent}-- stylua: ignore{nl}{gap}")));
         }
     }
     // at equal offsets an `ignore end` (order 0) must come before a start/single directive
